@@ -8,20 +8,27 @@ Statements over every trace the executor model accepts (`replay … = some c`): 
 programs, positions of failing commands, placements of `ignore_error`, interleavings.
 
 * `C03_no_later_cmd` — fail-stop inside a task (monitor `failStopMonP`, also evaluated by
-  the driver on the traces of the real executor).
-* `C03_propagates_*` — callers and dependents fail too and start nothing further.
+  the driver on the traces of the real executor); `C03_body_never_resumed`.
+* `C03_propagates_*`, `deps_ok_before_body`, `C03_no_later_cmd_caller`, `C03_no_cmd_dependent` —
+  callers and dependents fail too and start nothing further (local, state and trace forms).
 * `C03_ignore_exact_*` — `ignore_error` suppresses exactly what it says.
 * `exitCode`, `codes_ok` — the process exit status as `main` derives it, tied to the
-  generated table `Gen.Codes` (a renumbered code or a reordered type switch breaks the build).
-* `C03_status_*` — one-level statements: a non-ignored exit status `n` of an own command,
-  of a directly called task, of a direct dependency gives the directly called task the
-  result `TaskRunError{exit n}`, i.e. exit code 201, or `n` with `--exit-code`.
-  `C03_status_partial`: a directly called task that is not a dedup waiter never returns a
-  bare exit status (which `main` would turn into exit code 1).
+  generated table `Gen.Codes` (a renumbered code or a reordered type switch breaks the build);
+  `C03_invocation_result_single`: `Run`'s error for `task t` is the top activation's result.
+* `C03_status_own / _callee / _dep` — one-level statements: a non-ignored exit status `n` of an
+  own command, of a directly called task, of a direct dependency gives the directly called
+  task the result `TaskRunError{exit n}`, i.e. exit code 201, or `n` with `--exit-code`;
+  `C03_status_chain`: the same through any number of intermediate levels (as a statement
+  about the functions `afterCmd` / `stop ∘ depErr` each level applies).
+  `C03_status_partial` (every reachable configuration): a directly called task that is not a
+  dedup waiter never returns a bare exit status (which `main` would turn into exit code 1).
+  `C03_status_full` + `C03_status_counterexample`: without "not a waiter" that is false.
 
-What the full statement ("… wherever the failing command sits", any depth) would need: an
-inductive predicate "the result of activation `a` is the exit status `n` of a command in
-its call tree" closed under the three one-level lemmas, with the side conditions that (i)
+What the full statement ("… wherever the failing command sits", any depth) over *traces*
+would need beyond `C03_status_chain`: an inductive predicate on reachable configurations "the
+result of activation `a` is the exit status `n` of a command in its call tree", closed under
+the three one-level lemmas through `C03_callRes_is_callee_result` / `depResults`, with the
+side conditions that (i)
 no task on the path is `ignore_error` (a caller's task-level `ignore_error` suppresses an
 exit status coming back from a `task:` entry too), (ii) the failing dependency is the one
 whose error the errgroup kept (`depsDone r` may report any failing member; siblings see a
@@ -420,6 +427,67 @@ theorem C03_status_dep (F : Flags) (o : Obs) (x : Act) (n : Nat) (y : Act) (eff 
   rw [e]
   simp only [Act.stop, depErr, hd]
   exact ⟨rfl, rfl, rfl⟩
+
+/-- one level of the way an error travels up: through a non-deferred `task:` entry of `x`
+(`x.afterCmd`), or through the dependency group of `x` (`depsDone`, `Act.stop ∘ depErr`) -/
+inductive Level
+  | call (x : Act) (t : Nat)
+  | dep (x : Act)
+
+def Level.act : Level → Act
+  | .call x _ => x
+  | .dep x => x
+
+/-- the result of the activation at this level when the level below returned `r` -/
+def Level.res : Level → Res → Res
+  | .call x t, r => (x.afterCmd (.call t false) r).res
+  | .dep x, r => (x.stop (depErr x.indirect r)).res
+
+/-- the error of a failing command travelling up through the levels, innermost first -/
+def passUp : List Level → Res → Res
+  | [], r => r
+  | l :: ls, r => passUp ls (l.res r)
+
+theorem Level.res_exit (l : Level) (n : Nat) (hi : l.act.def_.ignoreError = false) :
+    l.res (.exit n) = wrap l.act.indirect (.exit n) := by
+  cases l with
+  | call x t => exact (C03_not_ignored_stops x (.call t false) n hi (fun _ _ h => by cases h)).2.1
+  | dep x =>
+    simp only [Level.res, Act.stop, depErr, wrap, Level.act]
+    by_cases h : x.indirect = true <;> simp [h]
+
+/-- **any depth.** An exit status `n` passes unchanged through any number of levels of
+`task:` entries and dependency groups of tasks that are not called directly and are not
+`ignore_error` … -/
+theorem C03_status_passes_up (ls : List Level) (n : Nat)
+    (h : ∀ l, l ∈ ls → l.act.indirect = true ∧ l.act.def_.ignoreError = false) :
+    passUp ls (.exit n) = .exit n := by
+  induction ls with
+  | nil => rfl
+  | cons l ls ih =>
+    have hl := h l List.mem_cons_self
+    simp only [passUp, Level.res_exit l n hl.2, hl.1, wrap, if_true]
+    exact ih (fun l' hm => h l' (List.mem_cons_of_mem _ hm))
+
+/-- … and the directly called task at the top turns it into `TaskRunError{exit n}`: exit code
+201, or `n` with `--exit-code`, wherever below it the failing command sits.  (Model link: each
+level's input *is* the lower activation's result — `C03_callRes_is_callee_result` for calls,
+`depsDone r` with `r` among the dependency results for dependency groups; side conditions:
+see the file header.) -/
+theorem C03_status_chain (ls : List Level) (top : Level) (n : Nat)
+    (h : ∀ l, l ∈ ls → l.act.indirect = true ∧ l.act.def_.ignoreError = false)
+    (ht : top.act.indirect = false ∧ top.act.def_.ignoreError = false) :
+    passUp (ls ++ [top]) (.exit n) = .run (.exit n) ∧
+    exitCode (passUp (ls ++ [top]) (.exit n)) false = 201 ∧
+    exitCode (passUp (ls ++ [top]) (.exit n)) true = n := by
+  have e : passUp (ls ++ [top]) (.exit n) = .run (.exit n) := by
+    have happ : ∀ (ls : List Level) (r : Res), passUp (ls ++ [top]) r = top.res (passUp ls r) := by
+      intro ls
+      induction ls with
+      | nil => intro r; rfl
+      | cons l ls ih => intro r; exact ih (l.res r)
+    rw [happ, C03_status_passes_up ls n h, Level.res_exit top n ht.2, ht.1]; rfl
+  rw [e]; exact ⟨rfl, rfl, rfl⟩
 
 /-- **C03 (status), the part that holds at every depth.** In every run a directly called
 task that did not become a waiter of a shared (`run: once` / `when_changed`) execution never
